@@ -258,6 +258,10 @@ func runC12(r *core.Run) {
 			return core.Outcome{Class: "panics", Nontrivial: true, Evals: 2}
 		})
 
+	core.Clause(r, "dst-contents", core.Opts{Rule: dstRule},
+		genDstCases([]string{"", "A", "n", "AACTTGGGn", "acgtnNACGTTTgacN", "ACXG", "\x00", "AC\x00", "ACG\xff"}),
+		checkDstContract("ReverseComplement", sequtil.ReverseComplement, ref.RevComp))
+
 	core.Clause(r, "revcomp-long", core.Opts{Rule: "position-dependent sequences over the 10-letter alphabet of every length 0..300 and 1000, 4095..4097, 65535..65537 x 3 dst variants; non-trivial = all"},
 		func(emit func(c12Seq) bool) {
 			var lens []int
